@@ -161,11 +161,16 @@ func equalityProgram(rt *rapid.T, h *harness.H) *caseC07 {
 		a := names[d.Pick(len(names), "a")]
 		b := names[d.Pick(len(names), "b")]
 		outOfPhase := false
-		if len(selfUnrolled) > 0 && d.Likely(40, "outofphase") {
+		if _, dag := env.Defs["Dg0"]; dag && i == 0 && d.Likely(70, "dagroots") {
+			// the roots of a dag family: equal (or different only at the 2^n leaves)
+			a, b = "Dg0", "Dh0"
+		} else if len(selfUnrolled) > 0 && d.Likely(40, "outofphase") {
 			a = selfUnrolled[d.Pick(len(selfUnrolled), "unrolled")]
 			outOfPhase = true
 		}
-		if outOfPhase || d.Likely(50, "related") {
+		if a == "Dg0" && b == "Dh0" {
+			// keep the pair
+		} else if outOfPhase || d.Likely(50, "related") {
 			// the same definition, or the clone it was rewritten into / from
 			b = a
 			partner := ""
